@@ -23,7 +23,13 @@ Lemma ci_get_vals m n d : In d (ci_get m n) -> In d (vals m).
 Proof.
   unfold ci_get. destruct (aget m n) eqn:E.
   - intros [<-|[]]. eapply aget_vals; eauto.
-  - intros H. apply in_map_iff in H as (p & <- & Hp). apply filter_In in Hp as [Hp _]. apply in_map; auto.
+  - intros H.
+    assert (MK : forall l q, min_key l = Some q -> In q l).
+    { induction l as [|p r IH]; simpl; [discriminate|]. intros q. destruct (min_key r) as [q0|].
+      - destruct (String.ltb (fst q0) (fst p)); intros E1; inversion E1; subst; auto.
+      - intros E1; inversion E1; auto. }
+    destruct (min_key (filter (fun p => fold_eqb (fst p) n) m)) as [q|] eqn:Q; simpl in H; [|contradiction].
+    destruct H as [<-|[]]. apply MK in Q. apply filter_In in Q as [Q _]. apply in_map; auto.
 Qed.
 Lemma vals_aset m n d x : In x (vals (aset m n d)) -> x = d \/ In x (vals m).
 Proof.
